@@ -316,6 +316,8 @@ inductive Res where
   | found (r : Rec)
   | addr (s : String)
   | skip
+  | forwarded (src addr : String)   -- dedicated cross-node connection opened to `addr`, the address of node `src`
+  | errNoAddr                       -- the source node has no usable address
 deriving DecidableEq, Repr
 
 def registerWaitingTunnel (cfg : Cfg) (w : World) (n : Nat) (r : Rec) : World × Res :=
@@ -390,6 +392,24 @@ def endBridge (cfg : Cfg) (w : World) (n : Nat) (tid : String) : World × Res :=
       { w with bridges := fun m t => if m = n ∧ t = tid then false else w.bridges m t } n tid).1, .ok)
   else (w, .skip)
 
+/-! ## Forwarding a target connection to the source node
+
+`cross_node_session.go` `lookupTunnelRouting` + `forwardToSourceNode` →
+`tunnel_connection_manager.go` `CreateDedicatedConnection`: the routing record names the source
+node, the node's address is asked from the routing table (`getNodeAddr = RoutingTable.GetNodeAddress`,
+components_session.go) **for every tunnel**, then that address is dialled.  The manager keeps no
+address state of its own (the per-tunnel connection map is emptied by `CloseTunnel` when the tunnel
+ends; the harness ends every forwarded tunnel).  Dialling a registered address is assumed to succeed. -/
+
+def forwardTarget (cfg : Cfg) (w : World) (n : Nat) (tid : String) : World × Res :=
+  match (lookupWaitingTunnel cfg w n tid).2 with
+  | .found r =>
+    ((lookupWaitingTunnel cfg w n tid).1,
+      match getNodeAddress cfg (lookupWaitingTunnel cfg w n tid).1 n r.sourceNodeID with
+      | .addr a => .forwarded r.sourceNodeID a
+      | _ => .errNoAddr)
+  | res => ((lookupWaitingTunnel cfg w n tid).1, res)
+
 /-! ## Histories -/
 
 inductive Ev where
@@ -403,6 +423,7 @@ inductive Ev where
   | advStore (d : Nat)   -- only the Redis server's clock
   | regAddr (n : Nat) (nid addr : String)
   | getAddr (n : Nat) (nid : String)
+  | fwd (n : Nat) (tid : String)   -- a target connection for `tid` arrives on node n and is forwarded
 deriving DecidableEq, Repr
 
 def step (cfg : Cfg) (w : World) : Ev → World × Res
@@ -416,6 +437,7 @@ def step (cfg : Cfg) (w : World) : Ev → World × Res
   | .advStore d => ({ w with rclk := w.rclk + d }, .skip)
   | .regAddr n nid a => registerNodeAddress cfg w n nid a
   | .getAddr n nid => (w, getNodeAddress cfg w n nid)
+  | .fwd n tid => forwardTarget cfg w n tid
 
 def runFrom (cfg : Cfg) (w : World) : List Ev → List Res
   | [] => []
